@@ -16,7 +16,8 @@ META = {
                    "shape/transposition of MAC, invariance under a symbolic non-zero complex factor, exactness on shapes "
                    "that are a complex multiple of a real vector, MSF(v, c v) = c, and that no division inside the "
                    "indicators has a zero divisor for a shape without zero-norm degeneracy (otherwise the real code "
-                   "returns NaN).",
+                   "returns NaN).  O6 (rounding guard): MPD is re-run with the quotient handed to its clip replaced by any real "
+                   "within 2^-40 of [-1, 1]; z3 decides per path that every arccos argument stays in [0, 1].",
     "bounds": {"quick": {"components": "2..3 (MPD: 2)", "sets": "1..2 shapes per set"},
                "thorough": {"components": "2..3 (inequalities), 2..4/5 (identities)"}},
     "stubs": ["np.linalg.eigvals of the 2x2 real/imag covariance: two symbols with sum = trace, product = determinant (MPC is "
@@ -57,6 +58,8 @@ def jobs(tier):
             if q and name == "MPD" and n == 3:
                 continue
             out.append({"ob": "O5", "cfg": {"fn": name, "n": n}})
+    for n in ((2,) if q else (2, 3)):
+        out.append({"ob": "O6", "cfg": {"fn": "MPD", "n": n}})
     return out
 
 
@@ -141,7 +144,84 @@ def world():
 def run(job, tier):
     import symx.core as core
     core.SOM_BLOWUP = 10 ** 6      # the degree-12 identities (MAC with 3 components) need the full expansion; jobs run in their own process
-    return {"O1": run_bounds, "O2": run_shape, "O3": run_scale, "O4": run_collinear, "O5": run_divisors}[job["ob"]](job["cfg"], tier)
+    return {"O1": run_bounds, "O2": run_shape, "O3": run_scale, "O4": run_collinear, "O5": run_divisors, "O6": run_rounding}[job["ob"]](job["cfg"], tier)
+
+
+def run_rounding(cfg, tier):
+    """MPD under a rounding abstraction: the quotient num/den handed to the clip is NOT the exact value (which Cauchy-Schwarz
+    keeps in [-1, 1]) but any real within 2^-40 of that interval - what float division can return for (nearly) collinear
+    shapes.  z3 decides per path that every arccos argument still lies in [0, 1], i.e. that the code's own clipping - not
+    exact arithmetic - keeps MPD finite and inside [0, pi/2]."""
+    import symx.core as core
+    n = cfg["n"]
+    eps = z3.Q(1, 2 ** 40)
+    qs = []
+
+    def hook(a, b):
+        e = Explorer.cur
+        q = z3.Real(e.fresh_name("quot"))
+        e.assume(z3.And(q >= -1 - eps, q <= 1 + eps))
+        qs.append(q)
+        return SV(q, z3.Or(a.nan, b.nan) if (a.nan is not None and b.nan is not None) else None)
+
+    def body(tg, st):
+        del ARCCOS_LOG[:]
+        del qs[:]
+        LA_INST.lastV = None
+        phi = fresh("phi", (n,), complex_=True)
+        st["phi"] = phi
+        core.DIV_HOOK = hook
+        try:
+            return tg.MPD(phi)
+        finally:
+            core.DIV_HOOK = None
+
+    def judge(e, kind, res, st, tally):
+        phi = st["phi"]
+        pre = [nonzero(phi)]
+        if kind == "exc":
+            tally.decide(e, z3.BoolVal(True), pre, on_sat=lambda m: cex_round(cfg, f"raised {type(res).__name__}: {res}"), with_side=False)
+            return
+        if len(ARCCOS_LOG) != 1:
+            tally.decide(e, z3.BoolVal(True), pre, on_sat=lambda m: cex_round(cfg, "MPD does not take one arccos call"), with_side=False)
+            return
+        args = [lift(a) for a in np.asarray(ARCCOS_LOG[0], dtype=object).ravel()]
+        bad = []
+        for a in args:
+            num, den = frac(a)
+            # den > 0 is not assumed: compare through the sign of the denominator
+            bad.append(z3.Or(a.nan if a.nan is not None else z3.BoolVal(False),
+                             z3.And(den > 0, z3.Or(num < 0, num > den)), z3.And(den < 0, z3.Or(num > 0, num < den))))
+        tally.decide(e, z3.Or(*bad), pre, on_sat=lambda m: cex_round(cfg, None), with_side=False,
+                     label=f"MPD arccos arguments stay in [0, 1] when the quotient is only known up to rounding, n={n}")
+
+    return explore(cfg, tier, body, judge, ["MPD"])
+
+
+def cex_round(cfg, note):
+    v, d = replay_round(cfg)
+    return {"inputs": {}, "reproduced": v, "detail": (note + " | " if note else "") + d, "key": "MPD:rounding"}
+
+
+def replay_round(cfg):
+    """real gen.MPD on exactly collinear shapes (complex constant times a real vector), where float division returns
+    quotients a few ulp outside [-1, 1]"""
+    from pyoma2.functions import gen
+    rng = np.random.RandomState(2)
+    n = cfg["n"]
+    shapes = [(3 + 4j) * np.array([1.0, 2.0, 3.0]), (0.3 + 0.7j) * np.array([1.0, 2.0, 3.0]), (2 - 1j) * np.array([1.0, -2.0, 3.0, 0.5])]
+    for _ in range(300):
+        m = rng.randint(max(n, 2), 9)
+        shapes.append((rng.randn() + 1j * rng.randn()) * rng.randn(m))
+    for phi in shapes:
+        with np.errstate(all="ignore"):
+            try:
+                v = gen.MPD(phi)
+            except Exception as e:  # noqa: BLE001
+                return True, f"MPD raised {type(e).__name__}: {e} on the collinear shape {phi.tolist()}"
+        if not np.isfinite(v) or v < 0 or v > np.pi / 2:
+            return True, f"MPD = {v} on the exactly collinear shape {np.round(phi, 6).tolist()}"
+    return False, "finite and inside [0, pi/2] on 303 exactly collinear shapes"
 
 
 def call(tg, name, *a):
@@ -591,5 +671,7 @@ def run_divisors(cfg, tier):
 
 
 def replay(ob, cfg, inputs):
+    if ob == "O6":
+        return replay_round(cfg)
     v, d, _ = replay_fn(cfg, inputs)
     return v, d
